@@ -1,6 +1,8 @@
 import Sekai.Model.Mint
 import Sekai.Gen.BankFlows
 import SekaiProofs.Lemmas.Dec
+import Sekai.Gen.App
+import Sekai.Model.App
 /-! # C13 — Monetary policy bounds: inflation, UBI and supply caps
 
 * `inflation_bound`: block inflation never lifts supply above the period snapshot grown pro rata at the configured
@@ -381,5 +383,21 @@ amount expression, re-opens this obligation). Of these, the native denomination 
 (inflation), ProcessUBIRecord (UBI) and — a recorded finding — layer2 MintIssueTx, whose denomination comes from
 the message. -/
 theorem mint_burn_sites : Sekai.Gen.BankFlows.mintBurn = expectedMintBurn := by decide +kernel
+
+/-! ### Application wiring (table `Gen.App`) -/
+
+/-- the module accounts that may mint, and those that may burn -/
+theorem minters_as_reviewed :
+    Sekai.App.holders Sekai.Gen.App.maccPerms "authtypes.Minter" =
+      ["baskettypes.ModuleName", "layer2types.ModuleName", "minttypes.ModuleName", "recoverytypes.ModuleName"] ∧
+    Sekai.App.holders Sekai.Gen.App.maccPerms "authtypes.Burner" =
+      ["baskettypes.ModuleName", "layer2types.ModuleName", "multistakingtypes.ModuleName", "recoverytypes.ModuleName"] := by
+  decide +kernel
+
+/-- every mint call site names a module account that holds the Minter permission (the two tokens-keeper wrappers pass
+their caller's module on) — two regenerated tables checked against each other -/
+theorem mint_sites_name_minters :
+    ((Sekai.Gen.BankFlows.mintBurn.filter fun r => r.2.2.1.endsWith "MintCoins" && !r.1.startsWith "x/tokens/").all fun r =>
+      (Sekai.App.holders Sekai.Gen.App.maccPerms "authtypes.Minter").contains (Sekai.App.siteModule r.1 r.2.2.2)) = true := by decide +kernel
 
 end Sekai.Props.C13
